@@ -39,6 +39,14 @@ CHECKS = {
  "C18": ("property-based round-trip (deepcopy / pickle) with structural, textual, identity and aliasing oracles",
          "Generated trees including comment, directive, include and cpp nodes are deep-copied and pickled; copies must "
          "print and compare equal, be well formed, share no node and be independent under mutation.", TRUST, "DESIGN.md 5 C18"),
+ "C11": ("metamorphic property-based testing over comment placements (ground-truth comment list and slots by construction)",
+         "Generated programs with comments placed by the layout engine; kept comments must appear once, unchanged, in order "
+         "and in the right slot; ignoring them must give the comment-free tree; directive processing may only retag nodes.",
+         TRUST, "DESIGN.md 5 C11"),
+ "C14": ("metamorphic property-based testing (insert cpp lines; tree modulo Cpp nodes == original; directive list oracle)",
+         "Random cpp directive lines (all kinds, blanks, backslash continuations) inserted at statement boundaries; the "
+         "Fortran part of the tree must be unchanged modulo grouping nodes and the directives recovered in order, class, "
+         "slot and text.", TRUST, "DESIGN.md 5 C14"),
  "C01": ("property-based round-trip (Hypothesis-driven program generator; parse/print/parse fixpoint oracle)",
          "Random programs from a structured Fortran generator are parsed, printed, re-parsed and re-printed; "
          "trees and texts must agree. Exploration is the right level: the domain is an infinite grammar.",
@@ -46,6 +54,6 @@ CHECKS = {
 }
 NOT_APPLICABLE = {
  pid: "check not built yet (work in progress; see DESIGN.md 5)" for pid in
- [ "C09", "C11", "C13", "C14", "C15", "C16", "C17",
+ [ "C09", "C13", "C15", "C16", "C17",
   "C19", "C20"]
 }
